@@ -35,3 +35,6 @@ impl ToPrimitive for u128 {
     #[verifier::external_body] fn to_u128(&self) -> (r: Option<u128>) { unimplemented!() }
     #[verifier::external_body] fn to_u64(&self) -> (r: Option<u64>) { unimplemented!() }
 }
+pub assume_specification<T, U, F: FnOnce(T) -> U> [Option::<T>::map_or] (o: Option<T>, default: U, f: F) -> (r: U)
+    requires o is Some ==> f.requires((o->Some_0,))
+    ensures o is None ==> r == default, o is Some ==> f.ensures((o->Some_0,), r);
